@@ -243,9 +243,56 @@ Definition oracle (admissible : bool) (obs : bytes) : bytes :=
     if admissible then bs "ok" else bs "FAIL accepted although the request is not admissible"
   else bs "ok".
 
+(* split at every occurrence of byte c *)
+Fixpoint split_on_fuel (fuel : nat) (c : N) (s : bytes) : list bytes :=
+  match fuel with
+  | O => [s]
+  | S f => match split_at c s with
+           | Some (a, b) => a :: split_on_fuel f c b
+           | None => [s]
+           end
+  end.
+Definition split_on (c : N) (s : bytes) : list bytes := split_on_fuel (length s) c s.
+
+Definition rj_observed_of (line : bytes) : option rj_observed :=
+  if is_prefix (bs "via=") line then Some (ObsVia (drop 4 line))
+  else if bytes_eqb line (bs "forbidden") then Some ObsForbidden
+  else if bytes_eqb line (bs "unable_to_authorise") then Some ObsUnable
+  else if bytes_eqb line (bs "error") then Some ObsError
+  else None.
+
+(* checkRestrictedJoin alone: is the observed verdict one the querier answers permit? *)
+Definition prop_restricted_join (args : list bytes) : bytes :=
+  match args with
+  | [_; cfg; obs] =>
+      with_cfg [cfg; cfg] (fun j =>
+        match rj_observed_of (first_line obs) with
+        | Some o => if rj_observed_admissible (gs "version" j) (dec_rj (gj "rj" j)) o then bs "ok"
+                    else bs "FAIL the verdict is not permitted by the querier answers for the joined room"
+        | None => bs "FAIL unreadable verdict"
+        end)
+  | _ => bs "badargs"
+  end.
+
+(* make_join: admissible, and the authoriser named in the template is one the answers permit *)
 Definition prop_make_join (args : list bytes) : bytes :=
   match args with
-  | [_; cfg; obs] => with_cfg [cfg; cfg] (fun j => oracle (make_join_admissible (dec_mj j)) obs)
+  | [_; cfg; obs] =>
+      with_cfg [cfg; cfg] (fun j =>
+        if bytes_eqb (first_line obs) (bs "ok") then
+          let i := dec_mj j in
+          if negb (make_join_admissible i) then bs "FAIL accepted although the request is not admissible"
+          else match split_on 10 obs with
+               | [_; _; tmpl] =>
+                   match split_on 124 tmpl with
+                   | [_; _; _; _; _; _; via; _] =>
+                       if rj_observed_admissible (mj_version i) (mj_rj i) (ObsVia via) then bs "ok"
+                       else bs "FAIL the authorising user named in the template is not entitled in the joined room"
+                   | _ => bs "FAIL unreadable template"
+                   end
+               | _ => bs "FAIL unreadable observable"
+               end
+        else bs "ok")
   | _ => bs "badargs"
   end.
 Definition prop_make_leave (args : list bytes) : bytes :=
@@ -362,6 +409,7 @@ Definition ops_C15 : list (bytes * (list bytes -> bytes)) :=
     (bs "C15.perform_invite", run_perform_invite);
     (bs "C15.prop.perform_invite", prop_perform_invite);
     (bs "C15.prop.make_join", prop_make_join);
+    (bs "C15.prop.restricted_join", prop_restricted_join);
     (bs "C15.prop.make_leave", prop_make_leave);
     (bs "C15.prop.send_join", prop_send_join);
     (bs "C15.prop.invite", prop_invite);
